@@ -148,6 +148,37 @@ theorem C12_parity (s : St D) (ad x : List UInt8) :
     rw [if_neg (by simp only [tagSize]; omega)]
     unfold unwrap; simp only; split <;> rfl
 
+/-! ### the specification's view of the history -/
+
+/-- one absorbed string: whole bytes, then the low `n` bits of a last byte -/
+abbrev HString := List UInt8 × UInt8 × Nat
+
+/-- SANSE as in the Farfalle paper: the state is the *history*, a list of strings (newest first),
+and the deck function is any function `F` of the history -/
+def historyDeck (F : List HString → Nat → List UInt8) : Deck (List HString) where
+  absorb d x l k := (x, l, k) :: d
+  squeeze d n _ := F d n
+
+/-- for every deck function that returns as many bytes as asked for, in the paper's formulation:
+`open` returns `p` iff the input is `C ‖ T` with `T = F(P‖01‖e ∘ A‖0‖e ∘ history)` and
+`C = P + F(T‖11‖e ∘ A‖0‖e ∘ history)` -/
+theorem C12_spec_open_iff_seal (F : List HString → Nat → List UInt8) (hF : ∀ h n, (F h n).length = n)
+    (s : St (List HString)) (ad ct p : List UInt8) :
+    (openMsg (historyDeck F) s ad ct).2 = some p ↔ ct = (sealMsg (historyDeck F) s ad p).2 :=
+  C12_open_iff_seal _ (fun _ _ _ _ _ _ => hF _ _) s ad ct p
+
+/-- what sealing a non-empty plaintext with non-empty associated data is, spelled out over the
+history (the framing bytes: `0‖e` = `e<<1`, `01‖e` = `2|e<<2`, `11‖e` = `3|e<<2`) -/
+theorem C12_spec_seal_shape (F : List HString → Nat → List UInt8) (s : St (List HString))
+    (ad p : List UInt8) (had : ad ≠ []) (hp : p ≠ []) :
+    let e : UInt8 := eBit s.e
+    let h1 : List HString := (ad, (0 : UInt8) ||| (e <<< 1), 2) :: s.d
+    let t := F ((p, (2 : UInt8) ||| (e <<< 2), 3) :: h1) 32
+    sealMsg (historyDeck F) s ad p =
+      ({ d := (p, (2 : UInt8) ||| (e <<< 2), 3) :: h1, e := !s.e },
+       xorBytes (F ((t, (3 : UInt8) ||| (e <<< 2), 3) :: h1) p.length) p ++ t) := by
+  simp [sealMsg, wrap, adStep, addToHistory, historyDeck, had, hp, tagSize]
+
 /-! ### the key block -/
 
 open Kravatte in
